@@ -2,9 +2,11 @@
 from __future__ import annotations
 
 import dataclasses
+import functools
 import inspect
 import itertools
 import random
+import typing
 
 import optree
 from optree.registry import __GLOBAL_NAMESPACE as GLOBAL
@@ -33,6 +35,7 @@ def shards(tier, seed):
 
 
 POST = {}
+IV = {}
 
 
 def make_layout(rng, max_fields):
@@ -57,7 +60,17 @@ def make_layout(rng, max_fields):
     flags = dict(frozen=rng.random() < 0.25, slots=rng.random() < 0.25, kw_only=rng.random() < 0.2, eq=rng.random() < 0.85, order=False, unsafe_hash=rng.random() < 0.15)
     if flags['eq'] and rng.random() < 0.2:
         flags['order'] = True
+    if rng.random() < 0.15:
+        flags['match_args'] = False
+    if flags['slots'] and rng.random() < 0.3:
+        flags['weakref_slot'] = True
     return fields, flags
+
+
+def make_extras(rng):
+    """Pseudo-fields and sentinels of the dataclass machinery: ClassVar (no field), InitVar with a default (no field, passed to
+    __post_init__), the KW_ONLY sentinel followed by one more ordinary field."""
+    return dict(classvar=rng.random() < 0.3, initvar=rng.random() < 0.3, kw_sentinel=rng.random() < 0.3)
 
 
 def order_fields(fields, flags):
@@ -70,7 +83,7 @@ def order_fields(fields, flags):
     return pos_nodef + rest
 
 
-def build_namespace(fields, use_optree_field):
+def build_namespace(fields, use_optree_field, extras=None):
     """Class body dict for the layout; returns (annotations, attrs, expect_field_error)."""
     ann, attrs = {}, {}
     err = None
@@ -99,6 +112,17 @@ def build_namespace(fields, use_optree_field):
         else:
             md = {} if f['pytree_node'] is None else {'pytree_node': f['pytree_node']}
             attrs[f['name']] = dataclasses.field(metadata=md, **kw)
+    extras = extras or {}
+    if extras.get('classvar'):
+        ann['cv'] = typing.ClassVar[int]
+        attrs['cv'] = 5
+    if extras.get('initvar'):
+        ann['iv'] = dataclasses.InitVar[object]
+        attrs['iv'] = dataclasses.field(default='ivd', kw_only=True)
+    if extras.get('kw_sentinel'):
+        ann['_'] = dataclasses.KW_ONLY
+        ann['kz'] = object
+        attrs['kz'] = ('dflt', 'kz')
     return ann, attrs, err
 
 
@@ -110,16 +134,22 @@ def dataclass_case(sink, seed, idx, max_fields):  # noqa: C901
     rng = gen.case_rng(seed, 'c19', idx)
     fields, flags = make_layout(rng, max_fields)
     fields = order_fields(fields, flags)
+    extras = make_extras(rng)
     route = ['decorator', 'factory', 'make_dataclass'][idx % 3]
+    if idx % 12 == 11:
+        route = 'make_dataclass-swapped'  # the documented compatibility path: ns=<pytree namespace>, namespace=<class body dict>
     ns = rng.choice(['dcns', 'dcns2', GLOBAL])
     nskey = '' if ns is GLOBAL else ns
     inherit = rng.choice([None, None, 'optree', 'plain'])
-    ident = dict(gen='c19', seed=seed, index=idx, fields=[{k: v for k, v in f.items()} for f in fields], flags=flags, route=route, ns=repr(ns), inherit=inherit)
+    ident = dict(gen='c19', seed=seed, index=idx, fields=[{k: v for k, v in f.items()} for f in fields], flags=flags, extras=extras, route=route, ns=repr(ns), inherit=inherit)
     key = f'dc{idx}'
     POST[key] = 0
 
-    def post_init(self, key=key):
+    IV[key] = []
+
+    def post_init(self, *iv, key=key):
         POST[key] += 1
+        IV[key].append(iv)
 
     # ---- base class
     bases = ()
@@ -134,7 +164,7 @@ def dataclass_case(sink, seed, idx, max_fields):  # noqa: C901
             Base = dataclasses.dataclass(Base, kw_only=True)
         bases = (Base,)
         base_fields = [dict(name='b0', default='none', init=True, pytree_node=None, kw_only=True, how='bare'), dict(name='b1', default='value', init=True, pytree_node=False, kw_only=True, how='plain')]
-    ann, attrs, field_err = build_namespace(fields, True)
+    ann, attrs, field_err = build_namespace(fields, True, extras)
     expect_reject = any(effective_node(f) and not f['init'] for f in fields)
     if field_err is not None:
         sink.check(expect_reject, 'field/spurious-rejection', 'optree.dataclasses.field rejects only pytree_node=True with init=False', ident, repr(field_err))
@@ -144,14 +174,17 @@ def dataclass_case(sink, seed, idx, max_fields):  # noqa: C901
     body = dict(__annotations__=ann, __post_init__=post_init, **attrs)
     dflags = dict(flags)
     try:
-        if route == 'make_dataclass':
+        if route.startswith('make_dataclass'):
             spec_fields = []
-            for f in fields:
-                if f['name'] in attrs:
-                    spec_fields.append((f['name'], object, attrs[f['name']]))
+            for name, typ in ann.items():
+                if name in attrs:
+                    spec_fields.append((name, typ, attrs[name]))
                 else:
-                    spec_fields.append((f['name'], object))
-            cls = optree.dataclasses.make_dataclass(f'DC{idx}', spec_fields, bases=bases, ns={'__post_init__': post_init}, namespace=ns, **dflags)
+                    spec_fields.append((name, typ))
+            if route == 'make_dataclass':
+                cls = optree.dataclasses.make_dataclass(f'DC{idx}', spec_fields, bases=bases, ns={'__post_init__': post_init}, namespace=ns, **dflags)
+            else:
+                cls = optree.dataclasses.make_dataclass(f'DC{idx}', spec_fields, bases=bases, ns=ns, namespace={'__post_init__': post_init}, **dflags)
         else:
             raw = type(f'DC{idx}', bases, body)
             if route == 'decorator':
@@ -167,7 +200,7 @@ def dataclass_case(sink, seed, idx, max_fields):  # noqa: C901
         sink.case(harness.fp('dc', repr(fields), repr(flags), route), len(fields) >= 2, None)
         return
     # the plain twin decides whether the layout itself is legal python
-    tann, tattrs, _ = build_namespace(fields, False)
+    tann, tattrs, _ = build_namespace(fields, False, extras)
     try:
         twin = dataclasses.dataclass(type(f'DC{idx}', tuple(b for b in bases), dict(__annotations__=tann, __post_init__=post_init, **tattrs)), **dflags)
         twin_ok, twin_exc = True, None
@@ -179,6 +212,8 @@ def dataclass_case(sink, seed, idx, max_fields):  # noqa: C901
         return
     try:
         all_fields = base_fields + fields
+        if extras['kw_sentinel']:
+            all_fields = all_fields + [dict(name='kz', default='value', init=True, pytree_node=None, kw_only=True, how='bare')]
         # ---- instances
         def value_for(f, r):
             if effective_node(f):
@@ -189,6 +224,8 @@ def dataclass_case(sink, seed, idx, max_fields):  # noqa: C901
         kwargs = {f['name']: value_for(f, rng) for f in all_fields if f['init']}
         inst = cls(**kwargs)
         sink.check(POST[key] == 1, 'post_init/construction', '__post_init__ runs once on construction', ident, POST[key])
+        if extras['initvar']:
+            sink.check(IV[key] == [('ivd',)], 'post_init/initvar', 'an InitVar pseudo-field is passed to __post_init__ and is not a field', ident, IV[key])
         exp_children_names = [f['name'] for f in all_fields if effective_node(f)]
         exp_meta_names = [f['name'] for f in all_fields if not effective_node(f) and f['init']]
         for obs_ns in ('', 'dcns', 'dcns2', 'zz'):
@@ -216,6 +253,10 @@ def dataclass_case(sink, seed, idx, max_fields):  # noqa: C901
             before = POST[key]
             rebuilt = spec.unflatten(leaves)
             sink.check(POST[key] == before + 1, 'post_init/unflatten', 'unflatten re-runs __post_init__ exactly once', dict(ident, observed_ns=obs_ns), POST[key] - before)
+            if extras['classvar']:
+                sink.check('cv' not in spec.entries() and all(n != 'cv' for n, _ in one.metadata) and rebuilt.cv == 5, 'node/classvar', 'a ClassVar is neither a child nor metadata', dict(ident, observed_ns=obs_ns))
+            if extras['initvar']:
+                sink.check('iv' not in spec.entries() and all(n != 'iv' for n, _ in one.metadata) and IV[key][-1] == ('ivd',), 'node/initvar', 'an InitVar is neither a child nor metadata; unflatten passes its default', dict(ident, observed_ns=obs_ns), IV[key][-1:])
             same_fields = type(rebuilt) is cls and all(same.diff(getattr(inst, f.name), getattr(rebuilt, f.name)) is None for f in dataclasses.fields(cls))
             sink.check(same_fields, 'unflatten/fields', 'unflatten reconstructs every field', dict(ident, observed_ns=obs_ns), lambda: (repr(inst), repr(rebuilt)))
             if flags['eq']:
@@ -248,6 +289,12 @@ def dataclass_case(sink, seed, idx, max_fields):  # noqa: C901
                    lambda: (str(inspect.signature(cls.__init__)), str(inspect.signature(twin.__init__))))
         pa, pb = cls.__dataclass_params__, twin.__dataclass_params__
         keys = ('init', 'repr', 'eq', 'order', 'unsafe_hash', 'frozen', 'match_args', 'kw_only', 'slots', 'weakref_slot')
+        sink.check(getattr(cls, '__match_args__', None) == getattr(twin, '__match_args__', None) and (cls.__hash__ is None) == (twin.__hash__ is None)
+                   and ('__weakref__' in getattr(cls, '__slots__', ())) == ('__weakref__' in getattr(twin, '__slots__', ())) and cls.__name__ == twin.__name__ and cls.__qualname__ == twin.__qualname__,
+                   'twin/class-attributes', '__match_args__, hashability, weakref slot, names match the twin', ident,
+                   lambda: (getattr(cls, '__match_args__', None), getattr(twin, '__match_args__', None), cls.__hash__, twin.__hash__))
+        if route.startswith('make_dataclass'):
+            sink.check(cls.__module__ == __name__, 'twin/module', 'make_dataclass sets __module__ to the calling module, as dataclasses.make_dataclass does', ident, cls.__module__)
         sink.check(all(getattr(pa, k) == getattr(pb, k) for k in keys), 'twin/params', '__dataclass_params__ match the twin', ident, lambda: (repr(pa), repr(pb)))
         tinst = twin(**kwargs)
         sink.check(repr(inst) == repr(tinst), 'twin/repr', 'repr matches the twin', ident, lambda: (repr(inst), repr(tinst)))
@@ -283,6 +330,10 @@ def recorder(*args, **kwargs):
     return (args, kwargs)
 
 
+def other_recorder(*args, **kwargs):
+    return None
+
+
 def partial_case(sink, seed, idx):  # noqa: C901
     rng = gen.case_rng(seed, 'c19p', idx)
 
@@ -294,10 +345,15 @@ def partial_case(sink, seed, idx):  # noqa: C901
     layers = []
     fn = recorder
     p = None
+    plain_inner = depth >= 2 and rng.random() < 0.3
     for lv in range(depth):
         args = [tree() for _ in range(rng.randrange(0, 3))]
         kws = {k: tree() for k in rng.sample(['ka', 'kb', 'kc', 'kd'], rng.randrange(0, 3))}
-        p = optree.functools.partial(fn, *args, **kws)
+        inner = fn
+        if plain_inner and lv == 0:
+            p = functools.partial(fn, *args, **kws)  # a standard-library partial as the innermost layer
+        else:
+            p = optree.functools.partial(fn, *args, **kws)
         layers.append((args, kws))
         fn = p
     ident = dict(gen='c19p', seed=seed, index=idx, depth=depth, layers=[(len(a), sorted(k)) for a, k in layers])
@@ -314,7 +370,11 @@ def partial_case(sink, seed, idx):  # noqa: C901
             if depth == 1:
                 sink.check(one.metadata is recorder, 'partial/metadata', 'the wrapped callable is the metadata', dict(ident, ns=ns), repr(one.metadata))
             else:
-                sink.check(one.metadata == fn.func if False else callable(one.metadata), 'partial/metadata-nested', 'the wrapped partial is the metadata (not merged)', dict(ident, ns=ns), repr(one.metadata))
+                try:
+                    ok_md = one.metadata == inner and hash(one.metadata) == hash(inner) and getattr(one.metadata, 'func', None) is inner.func and p.func == inner
+                except Exception as e:  # noqa: BLE001
+                    ok_md = repr(e)
+                sink.check(ok_md is True, 'partial/metadata-nested', 'the wrapped partial itself is the metadata (equal to it, hashing like it): not merged', dict(ident, ns=ns), lambda: (ok_md, repr(one.metadata)))
             sink.check(len(one.children) == 2 and same.diff(one.children[0], tuple(args)) is None and same.diff(one.children[1], dict(kws)) is None, 'partial/not-merged',
                        'a nested partial is never merged: only the outer args/keywords are children', dict(ident, ns=ns), lambda: repr(one.children)[:300])
             accs = optree.tree_accessors(p, **kw)
@@ -343,9 +403,20 @@ def partial_case(sink, seed, idx):  # noqa: C901
     ok = len(got) == 1 and same.diff(tuple(got[0][0]), tuple(exp_args)) is None and same.diff(dict(sorted(got[0][1].items())), dict(sorted(exp_kwargs.items()))) is None
     sink.check(ok, 'partial/call-after-map', 'after tree_map the rebuilt partial calls the same function with the mapped arguments', ident, lambda: (repr(got)[:400], repr((exp_args, exp_kwargs))[:400]))
     sink.check(type(mapped) is optree.functools.partial, 'partial/type-after-map', 'tree_map rebuilds an optree partial', ident)
+    # treespecs of partials: same callable and same argument structure <=> equal (and equal hash); another callable => unequal
+    twin_p = optree.functools.partial(inner, *optree.tree_map(g, tuple(args)), **optree.tree_map(g, dict(kws)))
+    other_p = optree.functools.partial(other_recorder, *args, **kws)
+    sp, st, so = optree.tree_structure(p), optree.tree_structure(twin_p), optree.tree_structure(other_p)
+    sink.check(sp == st and hash(sp) == hash(st) and repr(sp) == repr(st), 'partial/spec-eq', 'partials over the same callable with equally shaped arguments have equal treespecs', ident, lambda: (repr(sp), repr(st)))
+    sink.check(sp != so and not (sp == so), 'partial/spec-ne', 'partials over different callables have unequal treespecs', ident, lambda: (repr(sp), repr(so)))
+    sink.check(optree.tree_structure(mapped) == sp and mapped.func == p.func, 'partial/spec-after-map', 'tree_map keeps the callable and the structure', ident)
+    exp_repr_head = 'optree.functools.partial(' + repr(p.func)
+    sink.check(repr(p).startswith(exp_repr_head) and repr(p).endswith(')'), 'partial/repr', 'repr names the wrapped callable first', ident, lambda: repr(p)[:200])
     sink.count('partials')
     if depth > 1:
         sink.count('nested-partials')
+    if plain_inner:
+        sink.count('plain-inner-partials')
     sink.case(harness.fp('partial', depth, [(len(a), sorted(k)) for a, k in layers]), depth >= 2 or len(args) + len(kws) >= 2, ident if idx % 500 == 0 else None)
 
 
@@ -367,3 +438,4 @@ def finalize(sink, tier, seed):
     sink.require('rejected:field')
     sink.require('partials', 500)
     sink.require('nested-partials', 100)
+    sink.require('plain-inner-partials', 20)
